@@ -65,6 +65,18 @@ giving different weights to its two eigenvectors must get the perturbation-theor
 without M, svd, f64 / c128, neig = n and < n, both ends, first and second order, further backward passes).  Reference and tolerance as in degen_opts
 (autograd through a dense eigh / svd; 1e-6 + 1e4 eps S cond(M) / smallest gap <= 2e-3), relative to 1 + |ref|max.
 
+Task dense_gap (run_degen_opts with method "exacteig" / None = the documented default, 2 in 3 degen_opts spectra, 1 in 3 wide spectra): the dense
+path's backward (degen_symeig: differentiates the full decomposition, fixed absolute mask eps**0.6 = 4.1e-10 for exactly repeated eigenvalues) on
+spectra with a small but resolved gap.  degen_opts spectra: pair (1, 1 + gap), gap 2e-8 / 1e-7 / 3e-7 (gap/eps ~ 1e8..1e9; svd: s^2 gap 2 gap), the
+caller's explicit thresholds (degen_atol / degen_rtol 0 = "no special treatment", or <= 1e-13 + 1e-12 |e|) do not cover it: whatever the method does
+with bck_options, a pair the caller declared non-degenerate must get the perturbation-theory gradient with its 1/gap coupling.  Wide spectra: every
+two eigenvalues differ by >= 4x the (default or caller's) threshold evaluated at either of them.  symeig with / without M, svd, lowest / uppermost,
+neig < n and = n, f64 / c128, order 1 and 2, further backward passes.  Reference and tolerance as in degen_opts (autograd through torch.linalg.eigh /
+svd; (1e-6 + 1e4 eps max|e| cond(M) / gap) (1 + |ref|max), i.e. <= 1.1e-4 relative for gap 2e-8, against an error of 100 % when the coupling is dropped).
+All three pair tasks add an absolute part 30 eps |A| cond(M)^2 max|cw| |W| / gap^2 to the bound (see ASSUMPTIONS): the reference's and xitorch's LAPACK
+decompositions differ by a rotation eps |A| / gap inside the pair, whose effect on the 1/gap term is not relative to |ref| when the coupling coefficient
+(cw_i - cw_j) x_j^H W x_i is accidentally small (regress/C06/dense_gap_small_coupling_tolerance.json: |ref| 3.4e3 for 1/gap 8e6).
+
 Recorded findings (SITES; generated only when known_findings.json lists the site, otherwise avoided by construction):
   second_order_at_degeneracy             second-order gradients are wrong by O(1) when a repeated eigenvalue lies in the selected set
                                          (custom_exacteig, davidson) or anywhere in the spectrum (exacteig / default, which differentiates
@@ -106,6 +118,9 @@ RULE = ("eig: pencils with prescribed spectra, gaps >= 0.3 between the selected 
         "f (atol + rtol max|e|), f in 0.02 / 0.1 / 0.5, >= 4x the threshold at the pair itself), default and caller-supplied thresholds (rtol 1e-6..1e-3, atol "
         "0..1e-9), loss distinguishing every eigenvector; symeig with/without M and svd, custom_exacteig / davidson, f64 / c128, neig = n / n-1 / 3, both ends, order 1 "
         "and 2, 0..2 further passes; non-trivial = reference non-zero and both members of the pair and a larger eigenvalue that would cover their gap are retrieved. "
+        "dense_gap: the degen_opts spectra (2 in 3; resolved pair with gap 2e-8..3e-7 at |e| ~ 1, caller's thresholds zero / tiny) and the wide spectra (1 in 3) "
+        "with the dense methods 'exacteig' and None (default), whose backward differentiates the full decomposition with its own fixed mask; symeig with/without M "
+        "and svd, lowest / uppermost, neig < n and = n, f64 / c128, order 1 and 2, 0..3 further passes; non-trivial as for degen_opts / wide_spectrum. "
         "Non-trivial = the reference gradient is non-zero and (neig < n or M given or a degenerate group is selected or order 2 or further passes were run); "
         "perfect fit: the reference second-order gradient is non-zero; distinct by canonical case.")
 ASSUMPTIONS = [
@@ -126,6 +141,13 @@ ASSUMPTIONS = [
     "degen_opts: reference = torch.linalg.eigh (Cholesky-reduced with M) / torch.linalg.svd + autograd, all eigenvalues simple; tolerance "
     "(1e-6 + 1e4 eps max(|e|,1) cond(M) / gap) (1 + |ref|max), second order x10: the backward shifts the eigenvalue by 1e-14 max(|e|,1), a relative error "
     "(cw_i + cw_j)/|cw_i - cw_j| 1e-14/gap <= 15e-14/gap for the generated weights (measured <= 1e3 eps/gap)",
+    "dense_gap: same reference and tolerance as degen_opts / wide_spectrum; the pair is resolved (gap >= 2e-8 >= 1e8 eps |e|, 50x the dense path's "
+    "absolute mask eps**0.6) and is outside the caller's explicit thresholds (degen_opts spectra) or >= 4x the default / caller's threshold evaluated at "
+    "either member (wide spectra), so no reading of the documented thresholds makes it degenerate",
+    "degen_opts / wide_spectrum / dense_gap, absolute part of the error bound: two backward-stable decompositions of the same matrix differ by a rotation inside "
+    "the close pair by theta <= c eps |A| cond(M) / gap, which changes the coefficient of the 1/gap term by 2 theta |cw| |W| whatever its own size: the bound is "
+    "rel (1 + |ref|max) + 30 eps |A| cond(M)^2 3 (2 sqrt(rows cols)) / gap^2 (max|cw| <= 3, |W| <= 2 sqrt(rows cols); measured c ~ 0.6), second order: 10 rel "
+    "(1 + |ref|max) + 10 |C| / gap times that; 1e-4 .. 1e-2 of the typical |ref| ~ |cw| |W| / gap",
     "wide_spectrum: 'minimum relative difference between two eigenvalues to be treated as degenerate' refers to the magnitude of the two eigenvalues "
     "compared: every two retrieved eigenvalues differ by >= 4 (degen_atol + degen_rtol max(|e_i|, |e_j|)), so no pair is degenerate whichever member "
     "the threshold is evaluated at; same reference as degen_opts, tolerance (1e-6 + 1e4 eps max|e| cond(M) / smallest gap) (1 + |ref|max) (LAPACK mixes "
@@ -290,8 +312,8 @@ def maxabs(t):
     return float(t.detach().abs().max()) if t.numel() else 0.0
 
 
-def compare(got, ref, wrt_names, tol, what, labels, extra=""):
-    """returns (violation or None, worst err/(tol*scale))"""
+def compare(got, ref, wrt_names, tol, what, labels, extra="", floor=0.0):
+    """returns (violation or None, worst err/(tol*scale + floor)); floor: absolute part of the error bound"""
     worst = 0.0
     for gk, rk, nm in zip(got, ref, wrt_names):
         if gk is None:
@@ -300,11 +322,11 @@ def compare(got, ref, wrt_names, tol, what, labels, extra=""):
             return violation(what + "_nonfinite", "%s gradient w.r.t. %s is not finite%s" % (what, nm, extra), labels), float("inf")
         err = maxabs(gk - rk)
         sc = 1.0 + maxabs(rk)
-        worst = max(worst, err / (tol * sc))
-        if not err <= tol * sc:
+        worst = max(worst, err / (tol * sc + floor))
+        if not err <= tol * sc + floor:
             i = int((gk.detach() - rk.detach()).abs().reshape(-1).argmax())
             return violation(what, "%s gradient w.r.t. %s: max err %.3e > %.3e (|ref|max %.3e); at flat index %d got %s ref %s%s" % (
-                what, nm, err, tol * sc, sc - 1.0, i, complex(gk.detach().reshape(-1)[i]) if gk.is_complex() else float(gk.detach().reshape(-1)[i]),
+                what, nm, err, tol * sc + floor, sc - 1.0, i, complex(gk.detach().reshape(-1)[i]) if gk.is_complex() else float(gk.detach().reshape(-1)[i]),
                 complex(rk.detach().reshape(-1)[i]) if rk.is_complex() else float(rk.detach().reshape(-1)[i]), extra), labels), worst
     return None, worst
 
@@ -404,7 +426,7 @@ def bitwise_equal(a, b):
     return bool(((a == b) | (torch.isnan(a) & torch.isnan(b))).all())
 
 
-def repeated_backward(rows, first_fn, first_got, outs, wrt, names, mkloss, ref_fn, tol, labels, info, what="grad1"):
+def repeated_backward(rows, first_fn, first_got, outs, wrt, names, mkloss, ref_fn, tol, labels, info, what="grad1", floor=0.0):
     """further backward passes through the graph of ONE forward call (kept with retain_graph=True), as when a Jacobian is assembled
     row by row.  'same': the first cotangent again - the result must reproduce the first one bit for bit (the backward is a
     deterministic function of the saved forward results and of the cotangent; exactsolve, no random numbers).  Other kinds: another
@@ -427,7 +449,7 @@ def repeated_backward(rows, first_fn, first_got, outs, wrt, names, mkloss, ref_f
         gj = xt_call(torch.autograd.grad, lj, wrt, retain_graph=True, allow_unused=True, _where="backward_pass%d" % (j + 2))
         refj = ref_fn(lj_obj)
         bad, worst = compare(gj, refj, names, tol, "grad1_later_pass", labels + [tag],
-                             " [backward pass #%d through the same graph, loss kind '%s']%s" % (j + 2, kind, info))
+                             " [backward pass #%d through the same graph, loss kind '%s']%s" % (j + 2, kind, info), floor=floor)
         if bad is not None:
             return bad, labels
         labels = labels + [tag, "pass_ref=%s" % ("zero" if not any(maxabs(r) > 0 for r in refj) else "nonzero")]
@@ -1188,6 +1210,7 @@ def svd_case_st(draw, tier="quick", known=()):
 DEGEN_OPTS = {"zero": {"degen_atol": 0.0, "degen_rtol": 0.0}, "rzero": {"degen_rtol": 0.0}, "azero_rtiny": {"degen_atol": 0.0, "degen_rtol": 1e-12},
               "tiny": {"degen_atol": 1e-13, "degen_rtol": 1e-12}}
 PAIR_ROW_KINDS = ["same", "full", "v0", "v1", "v0", "v1", "vals", "rest"]
+DENSE_METHODS = ["exacteig", None]          # task dense_gap: None = the documented default method (exacteig)
 
 # task wide_spectrum: thresholds of the caller (or the defaults) on spectra spanning many orders of magnitude
 WIDE_OPTS = {"default": {}, "none": {"degen_atol": None, "degen_rtol": None}, "rtol1e-5": {"degen_rtol": 1e-5},
@@ -1283,7 +1306,8 @@ def run_degen_opts(case):
     dtype = R.DT[case.get("dtype", "f64")]
     low = case["mode"] == "lowest"
     opts = (WIDE_OPTS if wide else DEGEN_OPTS)[case["opts"]]
-    labels = ["task=wide_spectrum" if wide else "task=degen_opts", "opts=" + case["opts"], "mode=" + case["mode"], ("gap=1e%d" % round(math.log10(gap))) if wide else ("gap=%g" % gap), "neig=%s" % ("n" if neig == n else "<n"),
+    dense = method in DENSE_METHODS
+    labels = [("task=dense_gap(wide)" if wide else "task=dense_gap") if dense else ("task=wide_spectrum" if wide else "task=degen_opts"), "opts=" + case["opts"], "mode=" + case["mode"], ("gap=1e%d" % round(math.log10(gap))) if wide else ("gap=%g" % gap), "neig=%s" % ("n" if neig == n else "<n"),
               "do_prob=%s" % prob, "do_method=%s" % method, "do_M=%s" % hasM, "do_dtype=%s" % case.get("dtype", "f64"), "do_order=%d" % order,
               "do_passes=%d%s" % (1 + len(rows), "(late)" if late and rows else ""), "do_first_backward=%s" % ("recording" if first_graph else "plain")]
     base = [1.0, 1.0 + gap] + [2.0 + 0.7 * k for k in range(n - 2)]
@@ -1389,6 +1413,12 @@ def run_degen_opts(case):
     # the 1/gap terms amplify the mixing error of the two eigenvectors (LAPACK: eps |A| / gap; the backward's shift of the eigenvalue by
     # 1e-14 max(|e|, 1): 1e-14 max(|e|,1) / gap): relative accuracy 1e4 eps scale / gap, measured ~ 5e2 eps / gap
     rel1 = 1e-6 + 1e4 * EPS * max(scale, 1.0) * kappa / gap_e
+    # absolute part: two backward-stable decompositions (LAPACK eigh of A, of L^-1 A L^-H, of A^H A, svd of A) differ by a rotation inside the
+    # close pair by an angle theta <= c eps |A| cond(M) / gap (Davis-Kahan), which changes the coupling coefficient (cw_i - cw_j) x_j^H W x_i of
+    # the 1/gap term by <= 2 theta |cw| |W| WHATEVER the size of the coefficient itself: when the coefficient happens to be small (|ref| << |cw| |W|
+    # / gap) the error is not relative to |ref|.  Bound: 30 eps |A| cond(M)^2 max|cw| |W| / gap^2 with max|cw| <= 3, |W| <= 2 sqrt(rows cols)
+    # (measured: c ~ 0.6 with the actual |W|, |cw_i - cw_j|); for the generated gaps it is 1e-4 .. 1e-2 of the typical |ref| ~ |cw| |W| / gap
+    floor1 = 30 * EPS * max(scale, 1.0) * kappa ** 2 * 3.0 * 2.0 * math.sqrt(wshape[0] * wshape[1]) / gap_e ** 2
     info = " [bck_options=%r, %s, method %s, M %s, eigenvalue gap %g is not covered by the thresholds]" % (opts, prob, method, hasM, gap_e)
     if wide:
         info = (" [bck_options=%r, %s, method %s, M %s; retrieved eigenvalues %s: all simple, every two differ by >= 4 (degen_atol + degen_rtol max(|e_i|, |e_j|)); "
@@ -1410,7 +1440,7 @@ def run_degen_opts(case):
         return [torch.zeros_like(x) if q is None else q for q, x in zip(gs, leaves)]
     ref = ref_fn(loss, create_graph=(order == 2))
     sc = max(maxabs(q) for q in ref)
-    bad, worst = compare(got, ref, names, rel1, "degen_threshold", labels, info + " - a later violation kind than grad1: the pair was treated as degenerate")
+    bad, worst = compare(got, ref, names, rel1, "degen_threshold", labels, info + " - a later violation kind than grad1: the pair was treated as degenerate", floor=floor1)
     if bad is not None:
         return bad
     labels = labels + [margin_label("do_err1/tol", worst)]
@@ -1421,7 +1451,7 @@ def run_degen_opts(case):
     def first_again():
         return xt_call(torch.autograd.grad, lx, leaves, create_graph=first_graph, retain_graph=True, allow_unused=True, _where="backward_again")
     if rows and not late:
-        bad, labels = repeated_backward(rows, first_again, got, outs, leaves, names, mkloss, ref_fn, rel1, labels, info)
+        bad, labels = repeated_backward(rows, first_again, got, outs, leaves, names, mkloss, ref_fn, rel1, labels, info, floor=floor1)
         if bad is not None:
             return bad
     if order == 1:
@@ -1437,22 +1467,26 @@ def run_degen_opts(case):
     if late:
         def second_again():
             return xt_call(torch.autograd.grad, L1, leaves, allow_unused=True, retain_graph=True, _where="backward2_again")
-        bad, labels = repeated_backward(rows, second_again, got2, outs, leaves, names, mkloss, ref_fn, rel1, labels, info, what="grad2")
+        bad, labels = repeated_backward(rows, second_again, got2, outs, leaves, names, mkloss, ref_fn, rel1, labels, info, what="grad2", floor=floor1)
         if bad is not None:
             return bad
     ref2 = torch.autograd.grad(contract(ref), leaves, allow_unused=True)
     ref2 = [torch.zeros_like(x) if q is None else q for q, x in zip(ref2, leaves)]
-    bad, worst = compare(got2, ref2, names, 10 * rel1, "degen_threshold_grad2", labels, info)
+    cnorm = math.sqrt(sum(float((c.abs() ** 2).sum()) for c in C))
+    # (second order: the derivative of the 1/gap term along C is ~ |C| / gap times larger, and so is the effect of the rotation)
+    bad, worst = compare(got2, ref2, names, 10 * rel1, "degen_threshold_grad2", labels, info, floor=10 * floor1 * cnorm / gap_e)
     if bad is not None:
         return bad
     return ok(labels + [margin_label("do_err2/tol", worst)], nontrivial=sc > 0 and (not wide or covered))
 
 
 @st.composite
-def degen_opts_st(draw, tier="quick"):
+def degen_opts_st(draw, tier="quick", dense=False):
+    """dense=True (task dense_gap): the dense methods - "exacteig" by name or the default (method None) - whose backward
+    (degen_symeig) differentiates the full decomposition and has its own, fixed degeneracy mask"""
     n = draw(st.integers(3, 5))
     prob = draw(st.sampled_from(["eig", "eig", "svd"]))
-    method = draw(st.sampled_from(["custom_exacteig", "custom_exacteig", "davidson"]))
+    method = draw(st.sampled_from(DENSE_METHODS if dense else ["custom_exacteig", "custom_exacteig", "davidson"]))
     order = draw(st.sampled_from([1, 1, 2]))
     rows = [draw(st.sampled_from(PAIR_ROW_KINDS)) for _ in range(draw(st.sampled_from([0, 1, 1, 2, 2, 3])))]
     case = {"n": n, "neig": draw(st.sampled_from([2, n])), "mode": draw(st.sampled_from(["lowest", "uppest"])),
@@ -1470,11 +1504,11 @@ def degen_opts_st(draw, tier="quick"):
 
 
 @st.composite
-def wide_spectrum_st(draw, tier="quick"):
+def wide_spectrum_st(draw, tier="quick", dense=False):
     """spectra spanning 2..8 orders of magnitude with default and caller-supplied thresholds (see wide_spectrum)"""
     n = draw(st.integers(3, 6))
     prob = draw(st.sampled_from(["eig", "eig", "eig", "svd"]))
-    method = draw(st.sampled_from(["custom_exacteig", "custom_exacteig", "davidson"]))
+    method = draw(st.sampled_from(DENSE_METHODS if dense else ["custom_exacteig", "custom_exacteig", "davidson"]))
     order = draw(st.sampled_from([1, 1, 1, 2]))
     rows = [draw(st.sampled_from(PAIR_ROW_KINDS)) for _ in range(draw(st.sampled_from([0, 0, 1, 2])))]
     pos = prob == "svd" or draw(st.sampled_from([True, False, False]))          # svd: eigenvalues s^2 > 0
@@ -1503,4 +1537,6 @@ def tasks(tier):
         Task("svd", strategy=svd_case_st(tier, known=known), run=run_svd, examples={"quick": 2400, "thorough": 65000}),
         Task("degen_opts", strategy=degen_opts_st(tier), run=run_degen_opts, examples={"quick": 480, "thorough": 6000}),
         Task("wide_spectrum", strategy=wide_spectrum_st(tier), run=run_degen_opts, examples={"quick": 640, "thorough": 8000}),
+        Task("dense_gap", strategy=st.one_of(degen_opts_st(tier, dense=True), degen_opts_st(tier, dense=True), wide_spectrum_st(tier, dense=True)),
+             run=run_degen_opts, examples={"quick": 480, "thorough": 6000}),
     ]
